@@ -25,7 +25,8 @@
 //! Replay: a case is regenerated from its `case <n> seed=<s>` line.
 use crate::common::*;
 use crate::node::*;
-use ckb_app_config::{BlockAssemblerConfig, StoreConfig};
+use ckb_app_config::{BlockAssemblerConfig, NetworkConfig, StoreConfig, TxPoolConfig};
+use ckb_network::{Flags, NetworkController, NetworkService, NetworkState, network::TransportType};
 use ckb_chain::ChainServiceScope;
 use ckb_chain_spec::consensus::Consensus;
 use ckb_jsonrpc_types::ScriptHashType;
@@ -45,15 +46,43 @@ use std::sync::Arc;
 struct N {
     shared: Shared,
     chain: Option<ChainServiceScope>,
+    _network: Option<NetworkController>,
+}
+
+fn dummy_network(shared: &Shared, dir: &Path) -> NetworkController {
+    let config = NetworkConfig {
+        max_peers: 19,
+        max_outbound_peers: 5,
+        path: dir.join("network"),
+        ping_interval_secs: 15,
+        ping_timeout_secs: 20,
+        connect_outbound_interval_secs: 1,
+        discovery_local_address: true,
+        bootnode_mode: true,
+        reuse_port_on_linux: true,
+        ..Default::default()
+    };
+    let network_state = Arc::new(NetworkState::from_config(config).expect("Init network state failed"));
+    NetworkService::new(network_state, vec![], vec![], (shared.consensus().identify_name(), "test".to_string(), Flags::COMPATIBILITY), TransportType::Tcp)
+        .start(shared.async_handle())
+        .expect("Start network service failed")
 }
 
 fn start(dir: &Path, consensus: Consensus, store: StoreConfig) -> N {
+    start_with(dir, consensus, store, None)
+}
+
+fn start_with(dir: &Path, consensus: Consensus, store: StoreConfig, pool: Option<TxPoolConfig>) -> N {
     std::fs::create_dir_all(dir.join("header_map")).unwrap();
     let db_config = ckb_app_config::DBConfig { path: dir.join("db"), ..Default::default() };
     let builder = SharedBuilder::new("verif", dir, &db_config, None, runtime_handle(), consensus)
         .unwrap_or_else(|e| panic!("SharedBuilder::new failed: {e:?}"))
         .header_map_tmp_dir(Some(dir.join("header_map")))
         .store_config(store);
+    let builder = match &pool {
+        Some(tp) => builder.tx_pool_config(tp.clone()),
+        None => builder,
+    };
     let ba = BlockAssemblerConfig {
         code_hash: h256!("0x0"),
         args: Default::default(),
@@ -67,8 +96,15 @@ fn start(dir: &Path, consensus: Consensus, store: StoreConfig) -> N {
         notify_timeout_millis: 800,
     };
     let (shared, mut pack) = builder.block_assembler_config(Some(ba)).build().unwrap_or_else(|e| panic!("SharedBuilder::build failed: {e:?}"));
+    let network = if pool.is_some() {
+        let n = dummy_network(&shared, dir);
+        pack.take_tx_pool_builder().start(n.clone());
+        Some(n)
+    } else {
+        None
+    };
     let chain = ChainServiceScope::new(pack.take_chain_services_builder());
-    N { shared, chain: Some(chain) }
+    N { shared, chain: Some(chain), _network: network }
 }
 
 impl N {
@@ -516,6 +552,103 @@ fn run_case(out: &mut Out, seed: u64, base: &Path, cyc: u64) {
     let _ = std::fs::remove_dir_all(&dir);
 }
 
+/// the tx-pool path: pool submission fills the verification cache, the same transaction is then
+/// committed in a block (cached path in `warm`); and the pool-vs-block cycle limit: a transaction
+/// whose cycles exceed the pool's `max_tx_verify_cycles` but not the block limit is committed by a
+/// block (entry produced under the block limit), detached by a reorg, and submitted to the pool.
+fn run_pool_case(out: &mut Out, seed: u64, base: &Path, cyc: u64) {
+    let mut rng = Rng::new(seed ^ 0x5151);
+    out.begin_case(&format!("seed={} kind=pool", seed));
+    let cfg = NodeCfg { epoch_len: rng.range(6, 10), window: (2, 10), genesis_cells: 8, ..Default::default() };
+    let consensus = make_consensus(&cfg);
+    let dir = base.join(format!("pool-{}", seed));
+    let _ = std::fs::remove_dir_all(&dir);
+    let zero = StoreConfig { header_cache_size: 0, cell_data_cache_size: 0, block_proposals_cache_size: 0, block_tx_hashes_cache_size: 0, block_uncles_cache_size: 0, block_extensions_cache_size: 0, freezer_enable: false };
+    let mut tp = TxPoolConfig::default();
+    // one always-success input passes the pool limit, two inputs do not (both pass the block limit)
+    tp.max_tx_verify_cycles = cyc + cyc / 2;
+    let cold = start_with(&dir.join("cold"), consensus.clone(), zero, Some(tp.clone()));
+    let warm = start_with(&dir.join("warm"), consensus.clone(), StoreConfig::default(), Some(tp));
+    let mut bld = ChainBuilder::new(consensus.clone(), &dir.join("builder"));
+    let cells = genesis_cells(&consensus);
+    let mut c = Ctx { out, cold, warm, ids: HashMap::new(), content: HashMap::new(), blocks: vec![], side: vec![], cyc };
+    c.out.op(&format!("max {}", consensus.max_block_cycles()), "ok");
+    let fee1 = 1500 + rng.below(500);
+    let p1 = spend(&cells[0..1], 0, fee1, 1, None);
+    let fee2 = 3000 + rng.below(500);
+    let t2 = spend(&cells[1..3], 0, fee2, 2, None);
+    c.content.insert(p1.witness_hash(), (fee1, cyc));
+    c.content.insert(t2.witness_hash(), (fee2, 2 * cyc));
+    let submit = |n: &N, tx: &TransactionView| -> String {
+        match n.shared.tx_pool_controller().submit_local_tx(tx.clone()) {
+            Ok(Ok(())) => "ok".to_string(),
+            Ok(Err(r)) => {
+                let d = format!("{:?}", r);
+                if d.contains("ExceededMaximumCycles") || d.contains("ExceededTransactionSizeLimit") || d.contains("Cycles") { "err cycles".to_string() } else { format!("err {}", &d[..d.len().min(40)]) }
+            }
+            Err(e) => format!("fail {}", e),
+        }
+    };
+    let pool_ids = |n: &N| -> Vec<String> {
+        let ids = n.shared.tx_pool_controller().get_all_ids().expect("ids");
+        let mut v: Vec<String> = ids.pending.iter().chain(ids.proposed.iter()).map(|h| format!("{:#x}", h)).collect();
+        v.sort();
+        v
+    };
+    let mut both = |c: &mut Ctx, tx: &TransactionView, label: &str| {
+        c.cold.clear_vcache();
+        let (rc, rw) = (submit(&c.cold, tx), submit(&c.warm, tx));
+        c.out.count(&format!("pool:{}:cold={},warm={}", label, rc, rw));
+        c.out.evaluations += 2;
+        if rc != rw {
+            c.out.oracle_fail("pool-verdict-differs", &format!("{}: cold pool (verification cache empty) answers `{}`, warm pool `{}`", label, rc, rw));
+        }
+    };
+    // 1. the pool path: P1 is verified by the pools first
+    both(&mut c, &p1, "P1-first-submission");
+    both(&mut c, &t2, "T2-above-pool-limit");
+    let g = consensus.genesis_hash();
+    let mut salt = seed * 1000 + 500;
+    let mut next = |tip: &Byte32, bld: &mut ChainBuilder, txs: Vec<TransactionView>, props: Vec<ckb_types::packed::ProposalShortId>| {
+        salt += 1;
+        bld.build(tip, &BlockSpec { txs, proposals: props, salt, ..Default::default() })
+    };
+    let b1 = next(&g, &mut bld, vec![], vec![p1.proposal_short_id(), t2.proposal_short_id()]);
+    c.deliver(&b1, &[], "pool:prefix");
+    let b2 = next(&b1.hash(), &mut bld, vec![], vec![]);
+    c.deliver(&b2, &[], "pool:prefix");
+    // 2. branch 1 commits both: P1 through the cached path in `warm` (entry written by the pool),
+    //    T2 through the full path under the block limit (entry written by the block verifier)
+    let b3 = next(&b2.hash(), &mut bld, vec![p1.clone(), t2.clone()], vec![]);
+    c.deliver(&b3, &[], "pool:commit-P1-T2");
+    // 3. a heavier branch without them: both are detached and re-added by the pools
+    let mut t = b2.hash();
+    for _ in 0..2 {
+        let b = next(&t, &mut bld, vec![], vec![]);
+        c.deliver(&b, &[], "pool:reorg-branch");
+        t = b.hash();
+    }
+    std::thread::sleep(std::time::Duration::from_millis(150));
+    let (ic, iw) = (pool_ids(&c.cold), pool_ids(&c.warm));
+    c.out.count(&format!("pool:after-reorg:cold-has={},warm-has={}", ic.len(), iw.len()));
+    if ic != iw {
+        c.out.oracle_fail("pool-content-differs", &format!("after the reorg: cold pool {:?}, warm pool {:?}", ic, iw));
+    }
+    // 4. T2 (cycles above the pool limit; `warm` holds an entry produced under the block limit)
+    both(&mut c, &t2, "T2-resubmitted-after-reorg");
+    both(&mut c, &p1, "P1-resubmitted-after-reorg");
+    let (ic, iw) = (pool_ids(&c.cold), pool_ids(&c.warm));
+    if ic != iw {
+        c.out.oracle_fail("pool-content-differs", &format!("after the re-submissions: cold pool {:?}, warm pool {:?}", ic, iw));
+    }
+    c.out.nontrivial(format!("pool|{}|{}", cfg.epoch_len, fee1 % 7));
+    // nodes with a running tx-pool service are not torn down in-process (global exit signal); leak them
+    let Ctx { cold, warm, .. } = c;
+    std::mem::forget(cold);
+    std::mem::forget(warm);
+    drop(bld);
+}
+
 pub fn run(opts: &Opts) {
     let mut out = Out::new(&opts.out);
     let base = scratch_dir(&opts.out, "c14");
@@ -525,7 +658,11 @@ pub fn run(opts: &Opts) {
         for l in read_replay_ops(p) {
             if l.starts_with("case ") {
                 if let Some(s) = l.split_whitespace().find_map(|t| t.strip_prefix("seed=")) {
-                    run_case(&mut out, s.parse().expect("seed"), &base, cyc);
+                    if l.contains("kind=pool") {
+                        run_pool_case(&mut out, s.parse().expect("seed"), &base, cyc);
+                    } else {
+                        run_case(&mut out, s.parse().expect("seed"), &base, cyc);
+                    }
                     n += 1;
                 }
             }
@@ -538,6 +675,10 @@ pub fn run(opts: &Opts) {
         let cases = if opts.thorough() { 100 * opts.scale } else { 12 * opts.scale };
         for i in 0..cases {
             run_case(&mut out, opts.seed.wrapping_mul(1_000_003).wrapping_add(i), &base, cyc);
+        }
+        let pool_cases = if opts.thorough() { 12 * opts.scale } else { 3 * opts.scale };
+        for i in 0..pool_cases {
+            run_pool_case(&mut out, opts.seed.wrapping_mul(1_000_003).wrapping_add(i), &base, cyc);
         }
     }
     let _ = std::fs::remove_dir_all(&base);
